@@ -160,12 +160,14 @@ def s4(ctx, rep):
     ob = P.method("SynchronousBracket", "on_result")
     cfgb = cfg_of(ob)
     pr = ctx.nodes(ob, ctx.sel_call(selfcall="_promote_trials_at_rung_complete"), "may", 0)
-    from ..engine import vars_assigned_from
-    from ..kinds import parity as _par
-    cv = vars_assigned_from(ob, lambda v: isinstance(v, ast.BoolOp) and isinstance(v.op, ast.And)
-                            and any("self._first_free_pos >= len(" in t_ for t_ in _par.both_texts(v))
-                            and any("self.num_pending_slots() == 0" in t_ for t_ in _par.both_texts(v)))
-    ok = bool(pr) and len(cv) == 1 and all(ctx.has_fact(ob, n, lambda a: a[0] == "truth" and a[1] == cv[0] and a[2] is True) for n in pr)
+    from .common import dom_guard
+
+    def _complete(at):
+        return any(a[0] == "le" and a[1].startswith("len(") and a[2] == "self._first_free_pos" for a in at) and (
+            any(a[0] == "eq" and a[3] is True and {a[1], a[2]} == {"0", "self.num_pending_slots()"} for a in at) or
+            any(a[0] == "le" and a[1] == "self.num_pending_slots()" and a[2] == "0" for a in at) or
+            any(a[0] == "truth" and a[1] == "self.num_pending_slots()" and a[2] is False for a in at))
+    ok = bool(pr) and all(_complete(set(dom_guard(ctx, ob, n)) | set(ctx.facts(ob).at(n))) for n in pr)
     rep.put(ok, "S4", "guarded_by", "SynchronousBracket.on_result: promotion (and release of checkpoints) only when the rung is complete", ob, None, "")
 
 
